@@ -343,4 +343,12 @@ class SharedNames(object):
                      others=[('OTHER-MIB', other)], others_first=case['others_first'])
 
 
-FAMILIES = [Sequences(), Names(), Parts(), ReservedKeys(), TableOrders(), SharedNames()]
+
+def _option_histories():
+    from mc.checks import C12
+
+    class OptionHistories(C12.OptionHistories):
+        prefix = 'C03'
+    return OptionHistories()
+
+FAMILIES = [Sequences(), Names(), Parts(), ReservedKeys(), TableOrders(), SharedNames(), _option_histories()]
